@@ -601,6 +601,72 @@ class Gen:
                 paint()
         return ops
 
+    COPY_COUNTS = [1, 2, 3, 5, 7, 8, 9, 12, 15, 16, 17, 23, 24, 25, 31, 32, 33, 40]
+
+    def shared_copy_history(self, nops):
+        """the shared-memory copy routines (utils.rs: head bytes / aligned AtomicU64 words / tail bytes, forward and backward):
+        copyWithin on views of one SharedArrayBuffer with every (from mod 8, to mod 8) class, counts around the multiples of 8,
+        both directions, overlapping and disjoint; plus set/slice between views of the same shared buffer"""
+        self.fresh()
+        r = self.r
+        L = r.choice([48, 56, 64, 72, 80])
+        grow = r.random() < 0.4
+        M = L + (r.choice([0, 8, 16]) if grow else 0)
+        ops = ["newbuf 0 1 %s %s" % (fv(float(L)), fv(float(M)) if grow else "-")]
+        self.bufs[0] = dict(len=L, max=M if grow else None, shared=True, det=False)
+        ops.append("mkta 0 u8 0 u u")
+        self.views[0] = dict(kind="u8", buf=0, off=0, alen=None if grow else L, dv=False)
+        k = self.kind(["i16", "u16", "i32", "u32", "f32", "f64", "i64", "u64"])
+        off = SIZE[k] * r.randrange(0, 4)
+        ops.append("mkta 1 %s 0 %s u" % (k, fv(float(off))))
+        self.views[1] = dict(kind=k, buf=0, off=off, alen=None if grow else (L - off) // SIZE[k], dv=False)
+        boff = r.randrange(1, 8)                      # a byte view that starts misaligned
+        ops.append("mkta 2 u8 0 %s %s" % (fv(float(boff)), fv(float(L - 8))))
+        self.views[2] = dict(kind="u8", buf=0, off=boff, alen=L - 8, dv=False)
+
+        def paint():
+            ops.append("setarr 0 %s %s" % (fv(0.0), " ".join(fv(float((11 * i + 3) % 251)) for i in range(L))))
+        paint()
+        since = 0
+        while len(ops) < nops:
+            v = r.choice([0, 0, 2, 1])
+            n = self.vlen(v)
+            c = r.random()
+            if c < 0.8:
+                if v == 1:
+                    cnt = r.randrange(1, max(2, n))
+                else:
+                    cnt = r.choice([x for x in self.COPY_COUNTS if x < n] or [1])
+                a = r.randrange(0, n - cnt + 1)
+                cc = r.random()
+                if cc < 0.35:        # same 8-byte phase, overlapping (the word loops)
+                    b = a + 8 * r.choice([-3, -2, -1, 1, 2, 3])
+                elif cc < 0.6:       # overlapping by less than a word
+                    b = a + r.choice([-7, -5, -3, -1, 1, 2, 4, 6, 7])
+                else:
+                    b = r.randrange(0, n - cnt + 1)
+                b = max(0, min(b, n - cnt))
+                self.st("shcopy:%s:%s" % ("right" if a < b else "left" if a > b else "same",
+                                          "same-phase" if (a - b) % 8 == 0 else "diff-phase"))
+                self.st("shcopy:from%%8=%d" % ((a * SIZE[self.views[v]["kind"]] + self.views[v]["off"]) % 8))
+                ops.append("copywithin %d %s %s %s -" % (v, fv(float(b)), fv(float(a)), fv(float(a + cnt))))
+            elif c < 0.9:
+                src = r.choice([0, 2])
+                tgt = 2 if src == 0 else 0
+                o = r.randrange(0, 9)
+                ops.append("subarray 3 %d %s %s" % (src, fv(float(r.randrange(0, 16))), fv(float(r.randrange(16, 40)))))
+                self.views[3] = dict(kind="u8", buf=0, off=0, alen=8, dv=False)
+                ops.append("setta %d 3 %s" % (tgt, fv(float(o))))
+                self.st("shcopy:set-same-buffer")
+            else:
+                ops.append("slice 4 1 %d %s %s -" % (v, fv(float(r.randrange(0, 9))), fv(float(r.randrange(min(9, n), n + 1)))))
+                self.st("shcopy:slice")
+            since += 1
+            if since >= 3 and r.random() < 0.4:
+                paint()
+                since = 0
+        return ops
+
     def conv_history(self, nops):
         """conversion-focused: one buffer, one view of every kind (and a DataView), stores of boundary values and reads back"""
         self.fresh()
